@@ -19,8 +19,7 @@ PAT_RULE = ('queries rendered from generated ASTs (all six term kinds x negation
 PROPS = {
     'C01': dict(
         areas=[('pat', 10000, 1500000), ('filter', 6000, 600000)],
-        rule=PAT_RULE
-             '; terms also as the accent-free lower-case spelling of text cut from a line',
+        rule=PAT_RULE + '; terms also as the accent-free lower-case spelling of text cut from a line',
         trusted=['Go unicode tables (dumped per run)', 'in-process fzf.Run bypasses the byte-level reader (C06 covers it)',
                  'term-level matching is judged by the C02 oracle (Query.sat uses isSubseq / occurrences, not the matchers)'],
         level_text='Lean 4 theorem for every pattern, line and match-function behaviour: an extended pattern matches iff every '
